@@ -1100,6 +1100,21 @@ def main():
         funs[name] = (ptys, rty, mode or "pure")
         sig = " ".join("(%s : %s)" % (pn, coq_ty(t)) for (pn, _), t in zip(params, ptys))
         defs.append("Definition g_%s %s : %s :=\n  %s." % (name, sig, coq_ty(exp), text))
+    # minidump-common/src/utils.rs basename (re-exported as breakpad_symbols::basename; used for display and for the
+    # `code_file` query parameter, never for a path): compiled too, and proved equal to leafname in C17/Tie.v
+    try:
+        utils = open(os.path.join(repo, "minidump-common/src/utils.rs")).read()
+    except OSError as e:
+        die("cannot read the source: %s" % e)
+    params, ret, body = find_fn(utils, "basename", "utils.rs")
+    if [pt.replace(" ", "") for _, pt in params] != ["&str"] or ret.replace(" ", "") != "&str":
+        die("utils.rs fn basename: unknown signature")
+    lw = Lower("basename", {})
+    text, ty = lw.low_block(body, {params[0][0]: STR}, None)
+    if ty != STR:
+        die("utils.rs fn basename: the body has type %r" % (ty,))
+    defs.append("(* minidump-common/src/utils.rs *)\nDefinition g_basename (%s : str) : str :=\n  %s." % (params[0][0], text))
+    basename_partial = lw.partial_ops
     pat = join_rel_pattern(http)
     lw = Lower("join_rel", funs)
     needs = lw.charpat(pat, "c")
@@ -1112,7 +1127,9 @@ def main():
           "Definition g_needs_escape (c : Z) : bool :=\n  %s." % needs,
           "Definition g_join_rel_enc (rel : str) : str :=\n  flat_map (fun c => if g_needs_escape c then pct c else [c]) rel.", "",
           "(* slice expressions (&s[a..b]: can panic) emitted above; C17/Tie.v proves this is 0 *)",
-          "Definition g_partial_ops : nat := %d." % partial, "",
+          "Definition g_partial_ops : nat := %d." % partial,
+          "(* ... and in g_basename (C17/Tie.v proves each of them in bounds) *)",
+          "Definition g_basename_partial_ops : nat := %d." % basename_partial, "",
           "(* FileLookup fields outside the model's record and their (pinned) initialisers *)",
           "Definition g_unmodelled_fields : list (string * string * string) := [",
           ";\n".join('  ("%s", "%s", "%s")%%string' % (a, b, c.replace('"', '""')) for a, b, c in pins), "]."]
